@@ -1017,10 +1017,36 @@ class Engine:
                 ci = self.contracts.get(init)
                 if ci is not None and init not in self.inline:
                     ci(self, o, *args, **kwargs)
+                elif getattr(getattr(init, '__code__', None), 'co_filename', '').startswith('<'):
+                    self.generated_init(cls, o, args, kwargs)
                 else:
                     self.run_function(init, [o] + list(args), kwargs)
             return o
         raise OutOfSubset('instantiation of %s' % cls)
+
+    def generated_init(self, cls, o, args, kwargs):
+        """__init__ generated by @dataclass (no source to interpret): fields in order from the arguments, their default or their
+        default factory.  A mutable default *object* is one object shared by every instance: reading it is reading class-level state."""
+        import dataclasses
+        if not dataclasses.is_dataclass(cls):
+            raise OutOfSubset('generated __init__ of %s (no source)' % cls.__name__)
+        flds = [f for f in dataclasses.fields(cls) if f.init]
+        if len(args) > len(flds):
+            raise PyRaise(self.make_exc(TypeError, '__init__() takes %d positional arguments but %d were given' % (len(flds) + 1, len(args) + 1)))
+        for i, f in enumerate(flds):
+            if i < len(args):
+                v = args[i]
+            elif f.name in kwargs:
+                v = kwargs[f.name]
+            elif f.default is not dataclasses.MISSING:
+                v = f.default
+                self.note_read('class attribute', '%s.%s (dataclass default)' % (cls.__name__, f.name), v)
+            elif f.default_factory is not dataclasses.MISSING:
+                v = self.call(f.default_factory, [], {})
+            else:
+                raise PyRaise(self.make_exc(TypeError, "__init__() missing required argument '%s'" % f.name))
+            o.attrs[f.name] = v
+        self.wrote()
 
     def _find_init(self, cls):
         for k in cls.__mro__:
@@ -1067,6 +1093,13 @@ class Engine:
         m = NATIVE_MODELS.get(f)
         if m is not None:
             return m(self, *args, **kwargs)
+        if (getattr(f, '__module__', None) == 'math' or f in (round, abs, divmod, pow)) and not kwargs and \
+                all(isinstance(a, (int, float)) and not isinstance(a, bool) for a in args):
+            # pure function of concrete numbers
+            try:
+                return f(*args)
+            except HOST_ERRORS as e:
+                raise PyRaise(self.make_exc(type(e), str(e)))
         if isinstance(f, (types.BuiltinFunctionType, types.BuiltinMethodType, types.MethodType,
                           types.MethodWrapperType)) or type(f).__name__ in ('method_descriptor', 'builtin_function_or_method'):
             slf = getattr(f, '__self__', None)
@@ -1509,7 +1542,7 @@ class Engine:
             self.foreign_store[(id(o), name)] = v
             self.writes += 1
             return
-        if getattr(self, 'shadow_foreign_stores', False) and self._is_foreign_mutable(o):
+        if (getattr(self, 'shadow_foreign_stores', False) or (type(o).__module__ or '').startswith(self.package)) and self._is_foreign_mutable(o):
             # frame units: the store is recorded as an ownership violation and kept in a shadow map
             self.note_write('attribute store .%s' % name, o)
             self.foreign_store[(id(o), name)] = v
